@@ -215,7 +215,13 @@ impl Directive {
                 if !context.last_segment().unwrap().borrow().is_empty() {
                     context.add_segment(Segment::new(new_type));
                 } else {
-                    context.last_segment().unwrap().borrow_mut().t = new_type;
+                    let last = context.last_segment().unwrap();
+                    let mut last = last.borrow_mut();
+                    if last.t != new_type {
+                        // a pending .org belongs to the location counter of the old segment type
+                        last.address = 0;
+                    }
+                    last.t = new_type;
                 }
             }
             Directive::Device => {
